@@ -40,8 +40,11 @@ import (
 	"github.com/IrineSistiana/mosproxy/internal/dnsmsg"
 	"github.com/IrineSistiana/mosproxy/internal/upstream"
 	"github.com/IrineSistiana/mosproxy/internal/utils"
+	"github.com/IrineSistiana/mosproxy/verif/internal/fakeup"
 	"github.com/IrineSistiana/mosproxy/verif/internal/gen"
+	"github.com/IrineSistiana/mosproxy/verif/internal/pki"
 	"github.com/IrineSistiana/mosproxy/verif/internal/scripted"
+	"github.com/miekg/dns"
 	"golang.org/x/net/ipv4"
 	"golang.org/x/net/ipv6"
 )
@@ -966,5 +969,78 @@ func c17Fallback(c *Ctx) {
 			c.Ev.Distinct("udp-fallback-dial", f.addr != real && f.addr != "udp://"+real, f.dial != "")
 			c.Ev.Count("udp_fallback_forms_checked", 1)
 		}
+	}
+}
+
+// c17Redirect: a DoH peer (http, https, h3) that answers with an HTTP redirect to another host and
+// port. The proxy talks to the peer it was configured with (URL host / dial_addr) and to nobody
+// else: the redirect target must see neither a connection nor a query, whatever becomes of the
+// exchange. Control records every dial of the upstream.
+func c17Redirect(c *Ctx) {
+	ca, _ := pki.NewCA("c17-redirect")
+	leaf, _ := ca.Leaf(pki.LeafOpt{Names: []string{"up.test", "127.0.0.1"}})
+	stls := &tls.Config{Certificates: []tls.Certificate{leaf.TLS}}
+	for _, scheme := range []string{"http", "https", "h3"} {
+		peer, other := fakeup.NewServer("peer"), fakeup.NewServer("other")
+		var err, err2 error
+		switch scheme {
+		case "http":
+			err, err2 = peer.ListenHTTP("127.0.0.1:0"), other.ListenHTTP("127.0.0.1:0")
+		case "https":
+			err, err2 = peer.ListenHTTPS("127.0.0.1:0", stls), other.ListenHTTPS("127.0.0.1:0", stls)
+		case "h3":
+			err, err2 = peer.ListenH3("127.0.0.1:0", stls), other.ListenH3("127.0.0.1:0", stls)
+		}
+		if err != nil || err2 != nil {
+			c.Inconclusive(fmt.Sprintf("redirect setup: %v %v", err, err2))
+			peer.Close()
+			other.Close()
+			continue
+		}
+		us := map[string]string{"http": "http", "https": "https", "h3": "https"}[scheme]
+		peer.RedirectTo = us + "://" + other.Addr[scheme] + "/dns-query"
+		var mu sync.Mutex
+		var dials []c17Dial
+		ctrl := func(network, address string, _ syscall.RawConn) error {
+			mu.Lock()
+			dials = append(dials, c17Dial{network, address})
+			mu.Unlock()
+			return nil
+		}
+		_, port, _ := strings.Cut(peer.Addr[scheme], ":")
+		addr := scheme + "://up.test:" + port + "/dns-query"
+		if scheme == "http" {
+			addr = "http://" + peer.Addr[scheme] + "/dns-query"
+		}
+		u, err := upstream.NewUpstream(addr, upstream.Opt{DialAddr: peer.Addr[scheme], Control: ctrl, TLSConfig: &tls.Config{RootCAs: ca.Pool()}})
+		if err != nil {
+			c.Inconclusive("redirect: NewUpstream: " + err.Error())
+			peer.Close()
+			other.Close()
+			continue
+		}
+		for i := 0; i < 3; i++ {
+			ctx, cancel := context.WithTimeout(context.Background(), 3*time.Second)
+			m, _ := u.ExchangeContext(ctx, mkQuery(uint16(i+1), fmt.Sprintf("redir-r%d.peer.test.", i), dns.TypeA, dns.ClassINET, true))
+			cancel()
+			if m != nil {
+				dnsmsg.ReleaseMsg(m)
+			}
+			c.Ev.Eval(1)
+		}
+		time.Sleep(100 * time.Millisecond)
+		u.Close()
+		cs := map[string]any{"fn": "c17Redirect", "scheme": scheme, "peer": peer.Addr[scheme], "redirect_target": other.Addr[scheme], "dials": dials}
+		switch {
+		case len(peer.Log()) == 0:
+			c.Inconclusive("redirect " + scheme + ": the configured peer was never asked")
+		case len(other.Log()) > 0 || other.AcceptedConns() > 0:
+			c.Violation("redirect-followed:"+scheme, fmt.Sprintf("%s upstream configured for %s: the peer answered 307 with Location %s and the proxy went there (%d queries, %d connections at the redirect target); dials recorded: %v", scheme, peer.Addr[scheme], peer.RedirectTo, len(other.Log()), other.AcceptedConns(), dials), cs)
+		default:
+			c.Ev.Distinct("redirect", scheme)
+			c.Ev.Count("redirects_not_followed", 1)
+		}
+		peer.Close()
+		other.Close()
 	}
 }
